@@ -428,6 +428,7 @@ def run_config(contract, cfg, facets="VCSTRN", prime=None, tier="quick", max_pat
                 break
             c.entry = c.snapshot()
             start = len(g.trace)
+            opsnap = _snapshot_operands(c, args, kwargs)
             w.target = contract.target
             w.target_entered = False
             outcome = None
@@ -524,6 +525,11 @@ def run_config(contract, cfg, facets="VCSTRN", prime=None, tier="quick", max_pat
                         obs.append((nm, sat_a, f, None))
                     else:
                         obs.append((nm, [], f, None))
+                if "F" in facets or "V" in facets:
+                    mutated, same = _mutated_operands(c, opsnap)
+                    obs.append(("F.operands_not_mutated", [], same, None))
+                    if mutated:
+                        res.setdefault("exc_by_path", {})[psig + "/frame"] = "written in place: " + ", ".join(mutated)[:200]
                 if "C" in facets and _checked(c.entry):
                     for i, con in enumerate(g.own_cons(start)):
                         obs.append(("C.sat_h[%d]" % i, [], g.holds_h(con), None))
@@ -568,6 +574,8 @@ def run_config(contract, cfg, facets="VCSTRN", prime=None, tier="quick", max_pat
                     ob["detail"] = res["exc_by_path"][psig]
                 if nm == "V.result_shape" and psig + "/post" in res.get("exc_by_path", {}):
                     ob["detail"] = res["exc_by_path"][psig + "/post"]
+                if nm == "F.operands_not_mutated" and psig + "/frame" in res.get("exc_by_path", {}):
+                    ob["detail"] = res["exc_by_path"][psig + "/frame"]
                 if model is not None:
                     ob["model"] = {k: v for k, v in model.items()
                                    if k.startswith(("s_", "k_", "a_"))}
@@ -671,6 +679,70 @@ def _discharge_standalone(hyps, goal, timeout_ms):
     if v == "unsat":
         return "proved", time.time() - t0, None, "cvc5"
     return "unknown", time.time() - t0, None, "z3+cvc5"
+
+
+def _secret_objects(x, out, depth=0):
+    if depth > 4:
+        return
+    if isinstance(x, (list, tuple)):
+        for y in x:
+            _secret_objects(y, out, depth + 1)
+    elif isinstance(x, dict):
+        for y in x.values():
+            _secret_objects(y, out, depth + 1)
+    elif hasattr(x, "arr") and isinstance(getattr(x, "arr", None), list):
+        _secret_objects(x.arr, out, depth + 1)
+    elif hasattr(x, "lc") and not isinstance(x, (int, str)):
+        out.append(x)
+        inner = getattr(x, "lc", None)
+        if hasattr(inner, "lc"):
+            out.append(inner)
+
+
+def _snapshot_operands(c, args, kwargs):
+    """(object, its value object, its wire-expression object, coefficient map copy) for every secret object
+    reachable from the arguments and for the shared constants: no call may change any of them in place."""
+    objs = []
+    _secret_objects(list(args) + list(kwargs.values()), objs)
+    try:
+        LC = c.rt.LinComb
+        for nm in ("ZERO", "ONE", "ONE_SAFE"):
+            objs.append(getattr(LC, nm))
+    except Exception:
+        pass
+    snap = []
+    for o in objs:
+        lc = getattr(o, "lc", None)
+        m = dict(lc.m) if isinstance(lc, gh.GLC) else None
+        snap.append((o, getattr(o, "value", None), lc, m))
+    return snap
+
+
+def _mutated_operands(c, snap):
+    """(names of attributes that were re-assigned, formula: every watched value and coefficient is unchanged)"""
+    bad = []
+    eqs = []
+    for o, val, lc, m in snap:
+        now = getattr(o, "value", None)
+        if now is not val:
+            bad.append("%s.value" % type(o).__name__)
+            if isinstance(val, int) and isinstance(now, int):
+                eqs.append(term(now) == term(val))
+            else:
+                eqs.append(z3.BoolVal(False))
+        if getattr(o, "lc", None) is not lc:
+            bad.append("%s.lc" % type(o).__name__)
+            eqs.append(z3.BoolVal(False))
+        elif m is not None:
+            if list(lc.m.keys()) != list(m.keys()):
+                bad.append("%s.lc support" % type(o).__name__)
+                eqs.append(z3.BoolVal(False))
+            else:
+                for k in m:
+                    if lc.m[k] is not m[k]:
+                        bad.append("%s.lc coefficient" % type(o).__name__)
+                        eqs.append(term(lc.m[k]) == term(m[k]))
+    return bad, (z3.And(*eqs) if eqs else z3.BoolVal(True))
 
 
 class _entry_state:
